@@ -553,7 +553,7 @@ func propC05() *PropSpec {
 			js = append(js, jobsN("svg", "VerifSVGAttr", []int{0}, "26 root attributes x 26 x 9 child attributes x Inline x KeepComments")...)
 			js = append(js, Job{Pkg: "svg", Fn: "VerifSVGTwin", N: 0, ExpectFail: true, Desc: "vacuity twin"})
 			js = append(js, jobsN("svg", "VerifSVGTextAttrs", []int{0}, "13 text-valued attributes (id, class, href, xlink:*, xml:lang, font-family, data-*, aria-*, ...) x 12 values that look like numbers or dimensions x 4 elements: kept byte for byte")...)
-			js = append(js, jobsN("svg", "VerifSVGTextSpaces", pick(rng(1, 3), rng(1, 4)), "<svg><text>U1..Un</text></svg> with units out of 10 (letters, spaces, tab, tspan / a children with inner spaces): same rendered string (SVG white-space rules)")...)
+			js = append(js, jobsN("svg", "VerifSVGTextSpaces", pick(rng(1, 3), rng(1, 4)), "<svg><text>U1..Un</text></svg> with units out of 10 (letters, spaces, tab, tspan / a children with inner spaces), with and without xml:space=preserve: same rendered string (SVG white-space rules)")...)
 			js = append(js, jobsN("svg", "VerifSVGEntities", pick(rng(0, 2), rng(0, 3)), "<svg><text a=\"U..\">U..</text></svg>, <= n units each (references to < & > \" and text): well-formed, same character data and attribute value")...)
 			js = append(js, jobsN("svg", "VerifSVGColorAttr", []int{0}, "fill / stop-color = # + 3, 4, 6 or 8 symbolic hex digits over { 0 8 A }: same colour and alpha")...)
 			js = append(js, jobsN("svg", "VerifSVGViewBoxValues", []int{0}, "viewBox with 1..6 numbers x separators: the same numbers afterwards")...)
